@@ -499,4 +499,67 @@ theorem message_roundtrip {S R : Side} (hp : Paired S R) (insts : Nat → List S
       (by rw [ht, List.nil_append, hmerge]; exact hsize)
     rw [this, ht, List.nil_append, hmerge]
     rfl
+/-! ### several messages over one instance -/
+
+theorem receiveAll_append (insts : Nat → List Side) (lim : Limits) (t : Table) (a b : List Bytes) :
+    receiveAll insts lim t (a ++ b) =
+      match receiveAll insts lim t a with
+      | (t', some r, left) => (t', some r, left ++ b)
+      | (t', none, _) => receiveAll insts lim t' b := by
+  induction a generalizing t with
+  | nil => simp [receiveAll]
+  | cons w ws ih =>
+    simp only [List.cons_append, receiveAll]
+    cases h : receiveStep insts lim t w with
+    | mk t' o =>
+      cases o with
+      | none => simp only [ih]
+      | some r => simp
+
+theorem Table.set_nil_of_nil (t : Table) (k : Nat) (h : t k = []) : t.set k [] = t := by
+  funext i; simp only [Table.set]; split
+  · rename_i e; rw [e, h]
+  · rfl
+
+/-- SESSION ROUND TRIP (general contract form): every message of a session comes
+    back, in order, with its request id and body; the counter stays a `uint32`;
+    the receiver's table is unchanged. -/
+theorem session_roundtrip {S R : Side} (hp : Paired S R) (insts : Nat → List Side) (lim : Limits)
+    (maxBody : Nat) (hmb : 0 < maxBody) (chan tok : Nat) (hc : chan < 4294967296)
+    (hi : ∃ rest, (insts chan).reverse = R :: rest) (msgs : List (Nat × Bytes)) (t : Table)
+    (hm : ∀ m ∈ msgs, m.1 < 4294967296 ∧ m.2.length < 4294967296 ∧ t m.1 = [] ∧
+      (lim.maxChunkCount = 0 ∨ m.2.length / maxBody ≤ lim.maxChunkCount) ∧
+      (lim.maxMessageSize = 0 ∨ m.2.length ≤ lim.maxMessageSize))
+    (seq : Int) (hinv : SeqInv seq) :
+    ∃ wire seq', sendSession S maxBody chan tok seq msgs = (seq', .ok wire) ∧ SeqInv seq' ∧ msgs.length ≤ wire.length ∧
+      ∀ fuel, wire.length ≤ fuel →
+        receiveMany insts lim fuel t wire = msgs.map (fun m => .ok ⟨m.1, chan, m.2⟩) := by
+  induction msgs generalizing seq with
+  | nil => exact ⟨[], seq, rfl, hinv, Nat.le_refl _, fun fuel _ => by cases fuel <;> rfl⟩
+  | cons m ms ih =>
+    obtain ⟨h1, h2, h3, h4, h5⟩ := hm m (by simp)
+    obtain ⟨ws, hs, hl, hr, -⟩ := message_roundtrip hp insts lim maxBody hmb chan tok m.1 hc h1 hi seq hinv m.2 h2 t h3 h4 h5
+    obtain ⟨rest, sq', hs', hinv', hlen', hrest⟩ := ih (fun m' hm' => hm m' (by simp [hm'])) _ (seqAfter_inv seq _ hinv)
+    refine ⟨ws ++ rest, sq', ?_, hinv', ?_, ?_⟩
+    · simp only [sendSession]
+      rw [hs]
+      simp only []
+      rw [hs']
+    · have q1 : 1 ≤ ws.length := by rw [hl]; exact Nat.le_add_left _ _
+      have q2 := hlen'
+      simp only [List.length_append, List.length_cons]
+      omega
+    · intro fuel hf
+      have hne : ws ≠ [] := by intro e; rw [e] at hl; simp at hl
+      obtain ⟨w, ws', rfl⟩ := List.exists_cons_of_ne_nil hne
+      match fuel, hf with
+      | f + 1, hf =>
+        have hra := receiveAll_append insts lim t (w :: ws') rest
+        rw [hr] at hra
+        simp only [List.nil_append] at hra
+        simp only [List.cons_append, receiveMany, List.map_cons] at hra ⊢
+        rw [hra]
+        simp only
+        rw [Table.set_nil_of_nil t m.1 h3]
+        rw [hrest f (by simp only [List.length_append, List.length_cons] at hf; omega)]
 end Opcua.Chunk
